@@ -591,6 +591,19 @@ macro_rules! group_impl {
                         }
                         show_jac(&$aff::sum_of_products_precomp_256(&ps, &kr, &pre))
                     }
+                    // table-driven MSM on a PREFIX of the point list while the scalar list and the table buffer cover all points
+                    ("soppre_prefix", 3) => {
+                        let n = parse_usize(a[0])?;
+                        let ps = affs(a[1])?;
+                        let ks = scalars(a[2])?;
+                        if n > ps.len() { return None; }
+                        let kr: Vec<&[u64; 4]> = ks.iter().collect();
+                        let mut pre = vec![$aff::one(); 256 * ps.len()];
+                        for (i, p) in ps.iter().enumerate() {
+                            p.precomp_256(&mut pre[i * 256..(i + 1) * 256]);
+                        }
+                        show_jac(&$aff::sum_of_products_precomp_256(&ps[..n], &kr, &pre))
+                    }
                     ("findwin", 1) => $aff::find_pippinger_window(parse_usize(a[0])?).to_string(),
                     ("dec_c", 1) => match comp(&parse_bytes(a[0])?) { Some(e) => show_dec(e.into_affine()), None => "ERR:BadLength".to_string() },
                     ("dec_u", 1) => match uncomp(&parse_bytes(a[0])?) { Some(e) => show_dec(e.into_affine()), None => "ERR:BadLength".to_string() },
@@ -692,6 +705,8 @@ impl ExpandMsg for FixedExpander {
 
 type Xmd256 = ExpandMsgXmd<sha2::Sha256>;
 type Xmd512 = ExpandMsgXmd<sha2::Sha512>;
+type Xmd224 = ExpandMsgXmd<sha2::Sha224>;
+type Xmd384 = ExpandMsgXmd<sha2::Sha384>;
 type Xof128 = ExpandMsgXof<sha3::Shake128>;
 type Xof256 = ExpandMsgXof<sha3::Shake256>;
 
@@ -703,6 +718,8 @@ fn h2f<T: FromRO + Elem>(x: &str, m: &[u8], d: &[u8], c: usize) -> R {
     Some(match x {
         "xmd256" => show_list(&hash_to_field::<T, Xmd256>(m, d, c)),
         "xmd512" => show_list(&hash_to_field::<T, Xmd512>(m, d, c)),
+        "xmd224" => show_list(&hash_to_field::<T, Xmd224>(m, d, c)),
+        "xmd384" => show_list(&hash_to_field::<T, Xmd384>(m, d, c)),
         "xof128" => show_list(&hash_to_field::<T, Xof128>(m, d, c)),
         "xof256" => show_list(&hash_to_field::<T, Xof256>(m, d, c)),
         _ => return None,
@@ -723,6 +740,8 @@ fn hash_op(op: &str, a: &[&str]) -> R {
             match a[0] {
                 "xmd256" => show_bytes(&Xmd256::expand_message(&m, &d, l)),
                 "xmd512" => show_bytes(&Xmd512::expand_message(&m, &d, l)),
+                "xmd224" => show_bytes(&Xmd224::expand_message(&m, &d, l)),
+                "xmd384" => show_bytes(&Xmd384::expand_message(&m, &d, l)),
                 "xof128" => show_bytes(&Xof128::expand_message(&m, &d, l)),
                 "xof256" => show_bytes(&Xof256::expand_message(&m, &d, l)),
                 _ => return None,
@@ -832,6 +851,21 @@ fn misc_op(op: &str, a: &[&str]) -> R {
             let m2 = Bls12::miller_loop(&refs);
             if m1 != m2 { return Some(format!("UNSTABLE {} {}", m1.show(), m2.show())); }
             show_opt(Bls12::final_exponentiation(&m1))
+        }
+        // the pair list handed over as LAZY iterators whose size_hint has lower bound 0 (filter) / is inexact (chain, skip_while)
+        ("millerlazy", 2) => {
+            let mut ps = vec![];
+            for t in split_list(a[0]) { ps.push(g1::parse_aff(t)?.prepare()); }
+            let mut qs = vec![];
+            for t in split_list(a[1]) { qs.push(g2::parse_aff(t)?.prepare()); }
+            let pairs: Vec<_> = ps.iter().zip(qs.iter()).collect();
+            let m0 = Bls12::miller_loop(&pairs);
+            let m1 = Bls12::miller_loop(pairs.iter().filter(|_| true));
+            let m2 = Bls12::miller_loop(pairs.iter().skip_while(|_| false));
+            let (l, r) = pairs.split_at(pairs.len() / 2);
+            let m3 = Bls12::miller_loop(l.iter().chain(r.iter()));
+            if m0 != m1 || m0 != m2 || m0 != m3 { return Some(format!("ITERATOR-DEPENDENT slice={} filter={} skip_while={} chain={}", m0.show(), m1.show(), m2.show(), m3.show())); }
+            show_opt(Bls12::final_exponentiation(&m0))
         }
         ("finalexp", 1) => show_opt(Bls12::final_exponentiation(&Fq12::parse(a[0])?)),
         ("pairprod", 4) => Bls12::pairing_product(g1::parse_aff(a[0])?, g2::parse_aff(a[1])?, g1::parse_aff(a[2])?, g2::parse_aff(a[3])?).show(),
